@@ -90,6 +90,15 @@ Definition wrap_item (w : wrapper) (it : item) : item :=
   | IValue n b v => IValue n b (wrap_value w v)
   end.
 
+(* #[metrics(format = F)]: the value is written by F::format_value on the closed field instead of by the field's
+   own Value impl.  The formatter is user code; the generated programs use one test formatter, PlusOne: u64 n is
+   written as the metric n+1 (wrapping) with unit Count; it is lifted over Option (None writes nothing). *)
+Definition format_value (v : vcall) : vcall :=
+  match v with
+  | VMetric (OU n) _ _ _ => VMetric (OU ((n + 1) mod 18446744073709551616)) 1 [] false
+  | _ => v
+  end.
+
 Section Naming.
 Variables pascal snake kebab : bytes -> bytes.          (* the Inflector crate *)
 (* Which revision of the code is modelled.  Three independent repairs, one flag each, each consulted in exactly
@@ -165,7 +174,8 @@ Inductive leaf :=
 | LEnum (ra : style) (vs : list (bytes * option bytes)) (i : nat)   (* #[metrics(value(string))] enum, variant i *)
 | LVal (unit : option N) (inner : leaf)                  (* #[metrics(value)] newtype; unit declared on its field *)
 | LOpt (present : bool) (inner : leaf)                   (* Option<T> *)
-| LWrap (w : wrapper) (inner : leaf).                    (* WithDimensions<T, N> / ForceFlag<T, F> *)
+| LWrap (w : wrapper) (inner : leaf)                     (* WithDimensions<T, N> / ForceFlag<T, F> *)
+| LFmt (inner : leaf).                                   (* the field carries #[metrics(format = PlusOne)] *)
 
 Fixpoint leaf_call (l : leaf) : vcall :=
   match l with
@@ -176,6 +186,7 @@ Fixpoint leaf_call (l : leaf) : vcall :=
   | LOpt true inner => leaf_call inner
   | LOpt false _ => VNone
   | LWrap w inner => wrap_value w (leaf_call inner)
+  | LFmt inner => format_value (leaf_call inner)           (* FormattedValue<_, PlusOne, _>::write *)
   end.
 (* SampleGroup::as_sample_group *)
 Fixpoint leaf_sg (l : leaf) : bytes :=
